@@ -90,6 +90,12 @@ class StandardNode(XmlNode):
             obj = self.derived_factory(qname=qname, value=obj)
 
         objects.append((qname, obj))
+
+        if self.meta.mixed_content:
+            tail = ParserUtils.normalize_content(tail)
+            if tail:
+                objects.append((None, tail))
+
         return True
 
     def child(self, qname: str, attrs: dict, ns_map: dict, position: int) -> XmlNode:
